@@ -270,6 +270,12 @@ def _anc16(mod: Any, n: ast.AST, stop: Any) -> List[ast.AST]:
     return out
 
 
+def _root16(e: ast.AST) -> Optional[str]:
+    while isinstance(e, (ast.Attribute, ast.Subscript)):
+        e = e.value
+    return e.id if isinstance(e, ast.Name) else None
+
+
 def run(ctx: Any, prog: Program) -> None:
     db = prog.module('_engine_db')
     fgd = prog.module('fgd')
@@ -808,6 +814,27 @@ def run(ctx: Any, prog: Program) -> None:
                 ctx.check('C16.Q3', False, fgd, c, f'`{U(c.args[0])[:60]}` writes a helper name that is not spelled out without parentheses: the header parser overwrites a pending unknown helper name when the next name '
                           'arrives, so this helper (and the arguments of the following one) are misread unless it is the last helper', func='EntityDef.export', text=f'helper written as `{U(c.args[0])[:40]}`')
 
+    # ---- Q1 (grouping into blocks): every entity ends up in a block that is written ---------------------------------------------------------
+    # build_blocks returns the list of blocks; a block taken out of that list must not be filled afterwards - what goes into it is never
+    # serialised (the entity is silently missing from the database, while the count of blocks and the string tables look fine).
+    bb = db.func('build_blocks')
+    rem_calls = [c for c in walk_no_nested(bb) if isinstance(c, ast.Call) and isinstance(c.func, ast.Attribute) and c.func.attr == 'remove' and isinstance(c.func.value, ast.Name) and len(c.args) == 1 and isinstance(c.args[0], ast.Name)]
+    ret_lists = {x.id for r in walk_no_nested(bb) if isinstance(r, ast.Return) and r.value is not None for x in ast.walk(r.value) if isinstance(x, ast.Name)}
+    n_rem = 0
+    for rc in rem_calls:
+        lst, var = rc.func.value.id, rc.args[0].id
+        n_rem += 1
+        later_fill = [c for c in walk_no_nested(bb) if isinstance(c, ast.Call) and isinstance(c.func, ast.Attribute) and c.func.attr in ('add_ent', 'append', 'extend', 'add') and _root16(c.func.value) == var and c.lineno > rc.lineno]
+        reassigned = [a for a in walk_no_nested(bb) if isinstance(a, ast.Assign) and any(isinstance(t, ast.Name) and t.id == var for t in a.targets) and a.lineno > rc.lineno]
+        readded = [c for c in walk_no_nested(bb) if isinstance(c, ast.Call) and isinstance(c.func, ast.Attribute) and c.func.attr in ('append', 'insert') and isinstance(c.func.value, ast.Name) and c.func.value.id == lst
+                   and any(isinstance(a, ast.Name) and a.id == var for a in c.args) and c.lineno > rc.lineno]
+        # filled after removal, before the variable names another block / the block is put back
+        first_fill = min((c.lineno for c in later_fill), default=None)
+        safe = first_fill is None or any(x.lineno < first_fill for x in reassigned + readded)
+        ctx.check('C16.Q1', safe, db, later_fill[0] if later_fill and not safe else rc, f'build_blocks removes `{var}` from `{lst}` and afterwards still puts entities into it (`{U(later_fill[0])[:40] if later_fill else ""}`): those entities are in '
+                  'no block that is written, so they are missing from the serialised database', func='build_blocks', text=f'block `{var}` not filled after it left `{lst}`')
+    ctx.shape('C16.Q1', n_rem >= 1, db, bb, 'build_blocks removes merged / empty blocks from its list', func='build_blocks', text='block removals examined')
+
     # ---- Q3 (export order): a class is written after all its bases -----------------------------------------------------------------------------
     # sorted_ents works in passes: a pass collects the entities whose bases were all yielded in EARLIER passes, sorts that batch by name and
     # yields it.  The sort is only harmless because nothing in a batch depends on anything else in it - which holds as long as the set that
@@ -953,6 +980,7 @@ def run(ctx: Any, prog: Program) -> None:
 
 
 MUTANTS: List[Dict[str, Any]] = [
+    {'id': 'overflow_block_removed_before_filling', 'file': '_engine_db.py', 'find': "    # Now, add every remaining ent to overflow blocks.\n", 'replace': "    if not overflow_block.ents:\n        all_blocks.remove(overflow_block)\n    # Now, add every remaining ent to overflow blocks.\n", 'expect': 'C16.Q1'},
     {'id': 'sorted_ents_marks_done_in_pass', 'file': 'fgd.py', 'find': "                if ready:\n                    batch.append(ent)\n", 'replace': "                if ready:\n                    batch.append(ent)\n                    done.add(ent)\n", 'expect': 'C16.Q3'},
     {'id': 'db_classnames_folded_on_read', 'file': '_engine_db.py', 'find': "        classnames = file.read(cls_size).decode('utf8').split(STRING_SEP)", 'replace': "        classnames = file.read(cls_size).decode('utf8').casefold().split(STRING_SEP)", 'expect': 'C16.Q5'},
     {'id': 'unknown_helper_bare_without_args', 'file': 'fgd.py', 'find': """                file.write(f'\\n\\t{helper.name}({", ".join(args)})')""", 'replace': """                file.write(f'\\n\\t{helper.name}({", ".join(args)})' if args else f'\\n\\t{helper.name}')""", 'expect': 'C16.Q3'},
